@@ -153,9 +153,10 @@ def pairMap (pp sp : Path) : AstMap := ⟨[(pp, sp)], [], [], []⟩
 
 /-! ### shallow matching -/
 
-/-- `metas_match` -/
-def metasMatch (cm : Bool) (p s : T) : Bool :=
-  (cm && p.field = s.field) || !cm || p.field = "none"
+/-- `metas_match`; `pf` is the field the pattern node currently carries (its own, or `"none"` while it is
+the trimmed root / an operand of a commutative operator) -/
+def metasMatch (cm : Bool) (pf : String) (s : T) : Bool :=
+  (cm && pf = s.field) || !cm || pf = "none"
 
 /-- a non-list value is wrapped in a list; the student's `None` becomes `[None]` -/
 def FVal.items : FVal → List Item
@@ -189,39 +190,41 @@ def fieldOk (ignores : List String) (fi fs : Fld) : Bool :=
        let S := fs.val.items
        !(!I.isEmpty && I.length ≠ S.length && (I ++ S).all Item.isPrim) && zipAll itemOk I S))
 
-def shallowMainB (cm : Bool) (ignores : List String) (p s : T) : Bool :=
-  p.flds.length = s.flds.length && p.kind = s.kind && metasMatch cm p s &&
+def shallowMainB (cm : Bool) (pf : String) (ignores : List String) (p s : T) : Bool :=
+  p.flds.length = s.flds.length && p.kind = s.kind && metasMatch cm pf s &&
     zipAll (fieldOk ignores) p.flds s.flds
 
 /-- `shallow_match_main` -/
-def shallowMain (cm : Bool) (ignores : List String) (pp : Path) (p : T) (sp : Path) (s : T) : Option AstMap :=
-  if shallowMainB cm ignores p s then some (pairMap pp sp) else none
+def shallowMain (cm : Bool) (pf : String) (ignores : List String) (pp : Path) (p : T) (sp : Path) (s : T) :
+    Option AstMap :=
+  if shallowMainB cm pf ignores p s then some (pairMap pp sp) else none
 
 /-- `shallow_symbol_handler` -/
-def symbolHandler (cm : Bool) (idVal : String) (pp : Path) (p : T) (sp : Path) (s : T) : Option AstMap :=
+def symbolHandler (cm : Bool) (pf : String) (idVal : String) (pp : Path) (p : T) (sp : Path) (s : T) :
+    Option AstMap :=
   let name := p.strAttr idVal
-  let mm := metasMatch cm p s
+  let mm := metasMatch cm pf s
   match nameClass name with
   | .var =>
     if mm && s.kind = p.kind then
       let sid := s.strAttr idVal
-      if s.field = "func" && p.field ≠ "none" then
+      if s.field = "func" && pf ≠ "none" then
         some ((pairMap pp sp).addBind ⟨.func, name, sid, sp.dropLast⟩)
       else
         some ((pairMap pp sp).addBind ⟨.var, name, sid, sp⟩)
-    else shallowMain cm ["ctx"] pp p sp s
+    else shallowMain cm pf ["ctx"] pp p sp s
   | .exp =>
     if mm && idVal = "id" then some { pairMap pp sp with exps := [(name, sp)] }
-    else shallowMain cm ["ctx"] pp p sp s
+    else shallowMain cm pf ["ctx"] pp p sp s
   | .wild =>
-    if mm then some (pairMap pp sp) else shallowMain cm ["ctx"] pp p sp s
-  | .plain => shallowMain cm ["ctx"] pp p sp s
+    if mm then some (pairMap pp sp) else shallowMain cm pf ["ctx"] pp p sp s
+  | .plain => shallowMain cm pf ["ctx"] pp p sp s
 
 /-- `shallow_match_FunctionDef` / `shallow_match_ClassDef` with `shallow_match_xDef` -/
-def shallowDef (cm : Bool) (tbl : Tbl) (ignores : List String) (pp : Path) (p : T) (sp : Path) (s : T) :
-    Option AstMap :=
-  let mm := metasMatch cm p s
-  match shallowMain cm ignores pp p sp s with
+def shallowDef (cm : Bool) (pf : String) (tbl : Tbl) (ignores : List String) (pp : Path) (p : T) (sp : Path)
+    (s : T) : Option AstMap :=
+  let mm := metasMatch cm pf s
+  match shallowMain cm pf ignores pp p sp s with
   | none => none
   | some m =>
     if p.kind = s.kind && mm then
@@ -233,21 +236,21 @@ def shallowDef (cm : Bool) (tbl : Tbl) (ignores : List String) (pp : Path) (p : 
     else none
 
 /-- `shallow_match`: dispatch on the kind of the pattern node -/
-def shallowMatch (cm : Bool) (pp : Path) (p : T) (sp : Path) (s : T) : Option AstMap :=
+def shallowMatch (cm : Bool) (pf : String) (pp : Path) (p : T) (sp : Path) (s : T) : Option AstMap :=
   if p.kind = "Module" then
     if s.kind = "Module" || s.field = "body" then some (pairMap pp sp) else none
-  else if p.kind = "arg" then symbolHandler cm "arg" pp p sp s
+  else if p.kind = "arg" then symbolHandler cm pf "arg" pp p sp s
   else if p.kind = "Attribute" then
-    if p.field = "func" && s.kind = "Attribute" then
-      if s.field = "func" then symbolHandler cm "attr" pp p sp s else shallowMain cm [] pp p sp s
-    else if s.kind = "Attribute" then symbolHandler cm "attr" pp p sp s
-    else shallowMain cm [] pp p sp s
-  else if p.kind = "Name" then symbolHandler cm "id" pp p sp s
+    if pf = "func" && s.kind = "Attribute" then
+      if s.field = "func" then symbolHandler cm pf "attr" pp p sp s else shallowMain cm pf [] pp p sp s
+    else if s.kind = "Attribute" then symbolHandler cm pf "attr" pp p sp s
+    else shallowMain cm pf [] pp p sp s
+  else if p.kind = "Name" then symbolHandler cm pf "id" pp p sp s
   else if p.kind = "Pass" || p.kind = "Expr" then
-    if metasMatch cm p s then some (pairMap pp sp) else none
-  else if p.kind = "FunctionDef" then shallowDef cm .func ["name", "args"] pp p sp s
-  else if p.kind = "ClassDef" then shallowDef cm .cls ["name"] pp p sp s
-  else shallowMain cm [] pp p sp s
+    if metasMatch cm pf s then some (pairMap pp sp) else none
+  else if p.kind = "FunctionDef" then shallowDef cm pf .func ["name", "args"] pp p sp s
+  else if p.kind = "ClassDef" then shallowDef cm pf .cls ["name"] pp p sp s
+  else shallowMain cm pf [] pp p sp s
 
 /-! ### deep matching -/
 
@@ -264,8 +267,8 @@ def kidKind (ks : List T) (i : Nat) : String :=
   | none => ""
 
 /-- `deep_find_match` + the non-recursive part of `deep_find_match_Name/_BinOp/_Expr` -/
-def deepPre (cm : Bool) (pp : Path) (p : T) (sp : Path) (s : T) : Dispatch :=
-  let mm := metasMatch cm p s
+def deepPre (cm : Bool) (pf : String) (pp : Path) (p : T) (sp : Path) (s : T) : Dispatch :=
+  let mm := metasMatch cm pf s
   if p.kind = "Name" then
     let name := p.strAttr "id"
     match nameClass name with
@@ -323,30 +326,31 @@ def binflexHelper (base : AstMap) (L R : List AstMap) : List AstMap :=
       if both.hasConflicts then none else some both
 
 mutual
-/-- `deep_find_match(ins_node, std_node, check_meta)` -/
-def deep (cm : Bool) (pp : Path) (p : T) (sp : Path) (s : T) : List AstMap :=
+/-- `deep_find_match(ins_node, std_node, check_meta)`; `pf` = the field `ins_node` carries at this moment -/
+def deep (cm : Bool) (pf : String) (pp : Path) (p : T) (sp : Path) (s : T) : List AstMap :=
   match p with
   | .mk kind field flds kids =>
-    match deepPre cm pp (.mk kind field flds kids) sp s with
+    match deepPre cm pf pp (.mk kind field flds kids) sp s with
     | .done r => r
     | .generic ignores =>
-      match shallowMatch cm pp (.mk kind field flds kids) sp s with
+      match shallowMatch cm pf pp (.mk kind field flds kids) sp s with
       | none => []
       | some b => deepKids cm ignores pp 0 kids sp s [(b, 0)] 0
     | .binflex =>
       match kids with
       | [l, op, r] =>
-        match shallowMatch false pp (.mk kind field flds [l, op, r]) sp s with
+        match shallowMatch cm pf pp (.mk kind field flds [l, op, r]) sp s with
         | none => []
         | some b =>
           match s.kids with
           | [sl, sop, sr] =>
-            match shallowMatch true (pp ++ [1]) op (sp ++ [1]) sop with
+            match shallowMatch true op.field (pp ++ [1]) op (sp ++ [1]) sop with
             | none => []
             | some o =>
               let base := b.merged o
-              binflexHelper base (deep false (pp ++ [0]) l (sp ++ [0]) sl) (deep false (pp ++ [2]) r (sp ++ [2]) sr)
-              ++ binflexHelper base (deep false (pp ++ [0]) l (sp ++ [2]) sr) (deep false (pp ++ [2]) r (sp ++ [0]) sl)
+              -- the operands carry the field "none" while they are matched (they may swap sides)
+              binflexHelper base (deep cm "none" (pp ++ [0]) l (sp ++ [0]) sl) (deep cm "none" (pp ++ [2]) r (sp ++ [2]) sr)
+              ++ binflexHelper base (deep cm "none" (pp ++ [0]) l (sp ++ [2]) sr) (deep cm "none" (pp ++ [2]) r (sp ++ [0]) sl)
           | _ => []
       | _ => []
 
@@ -358,20 +362,20 @@ def deepKids (cm : Bool) (ignores : List String) (pp : Path) (i : Nat) (kids : L
   | pc :: rest =>
     if ignores.contains pc.field then deepKids cm ignores pp (i + 1) rest sp s st youngest
     else
-      match mapMerge st (candsFrom (fun j sj => deep cm (pp ++ [i]) pc (sp ++ [j]) sj) youngest 0 s.kids) with
+      match mapMerge st (candsFrom (fun j sj => deep cm pc.field (pp ++ [i]) pc (sp ++ [j]) sj) youngest 0 s.kids) with
       | none => []
       | some (st', y') => deepKids cm ignores pp (i + 1) rest sp s st' y'
 end
 
 mutual
 /-- `any_node_match` -/
-def anyNode (pp : Path) (p : T) (sp : Path) (s : T) : List AstMap :=
+def anyNode (pf : String) (pp : Path) (p : T) (sp : Path) (s : T) : List AstMap :=
   match s with
-  | .mk k f fl kids => deep true pp p sp (.mk k f fl kids) ++ anyKids pp p sp 0 kids
-def anyKids (pp : Path) (p : T) (sp : Path) (j : Nat) (kids : List T) : List AstMap :=
+  | .mk k f fl kids => deep true pf pp p sp (.mk k f fl kids) ++ anyKids pf pp p sp 0 kids
+def anyKids (pf : String) (pp : Path) (p : T) (sp : Path) (j : Nat) (kids : List T) : List AstMap :=
   match kids with
   | [] => []
-  | c :: cs => anyNode pp p (sp ++ [j]) c ++ anyKids pp p sp (j + 1) cs
+  | c :: cs => anyNode pf pp p (sp ++ [j]) c ++ anyKids pf pp p sp (j + 1) cs
 end
 
 /-- root trimming of `find_matches`: descend through single-child `Module` / `Expr` nodes; the node
@@ -385,10 +389,14 @@ def trimRoot (t : T) : T × Path :=
   let r := trimGo t []
   if r.2.isEmpty then r else (r.1.setField "none", r.2)
 
+/-- the field the (trimmed) pattern root carries during matching -/
+def rootField (p : T) : String :=
+  if (trimGo p []).2.isEmpty then p.field else "none"
+
 /-- `find_matches(pattern, code)`: every match with its `match_root`. -/
 def findMatches (p s : T) : List (AstMap × Option Path) :=
-  let pr := trimRoot p
+  let pr := trimGo p []
   let sr := trimRoot s
-  (anyNode pr.2 pr.1 sr.2 sr.1).map fun m => (m, dictGet pr.2 m.mappings)
+  (anyNode (rootField p) pr.2 pr.1 sr.2 sr.1).map fun m => (m, dictGet pr.2 m.mappings)
 
 end Pedal.Cait
